@@ -50,15 +50,18 @@ def shrink(case, kind):
 
 def run(ctx: Ctx):
     ctx.cov["rule"] = ("X: seeded tables (1-3, NULL keys), all link types; a single rule = 0-2 equi-join atoms (incl. substr keys, "
-                       "asymmetric l.a = r.b for dedupe) + optional filter atom, or an OR rule without extractable keys; rule lists "
-                       "of length 1-4; n_largest in {1,2,3,5}; 3 Coq-evaluated comparisons per case; non-trivial = the rule has a "
+                       "asymmetric l.a = r.b for dedupe) + optional filter atom, or an OR rule without extractable keys, salted on DuckDB; "
+                       "rule lists of length 1-4 with array-exploding rules (one or two exploded arrays) on DuckDB; max_rows_limit passed "
+                       "explicitly (never hit) in half of the cases; n_largest in {1,2,3,5}; 3 Coq-evaluated comparisons per case; non-trivial = the rule has a "
                        "NULL outcome, pre-filter > post-filter > 0 and >= 2 rules own pairs.")
     ctx.trusted += [
         "harness X: rule outcomes per pair and equi-join key values per record are evaluated by an independent DuckDB "
         "connection (key expressions re-parsed with sqlglot from equi_join_conditions_identified)",
         "modelled not verified: SQL join/GROUP BY/USING semantics of the engines; tie order of equal-sized blocks in "
         "n_largest_blocks is unspecified (sizes are compared)",
-        "exploding and salted rules are not generated here (C01 covers their blocking semantics)",
+        "exploding rules: outcome = TRUE on some pair of exploded variants (as in C01); only given to the cumulative function "
+        "(count_comparisons ignores arrays_to_explode: known finding, witness replayed); salted rules only to "
+        "count_comparisons (the cumulative function raises on them: loud)",
     ]
     ok = ctx.proof_stage("Properties/C14.v")
     if not ok:
@@ -82,6 +85,17 @@ def run(ctx: Ctx):
                               {"case": X.WITNESS, "implementation": {"post_filter_counts": counts}, "specification": {"predict": want}},
                               {"asymmetric_rule_multi_table": True, "kind": "orientation", "link_type": "link_and_dedupe"})
             ctx.expect_known("KF-C14-asymmetric-rule-random-alias", rep, "identical calls now agree with predict()")
+        except Exception:
+            ctx.log("witness replay raised", traceback.format_exc()[-800:])
+        try:
+            rep, post, want = X.replay_witness_explode()
+            ctx.cov["witness_exploding_count"] = {"post_filter": post, "predict": want}
+            if rep:
+                ctx.violation("count_comparisons_from_blocking_rule ignores arrays_to_explode: post-filter count "
+                              f"{post} but predict() scores {want} pairs for the exploding rule",
+                              {"case": X.WITNESS_EXPLODE, "implementation": {"post_filter": post}, "specification": {"predict": want}},
+                              {"exploding_rule_in_count_comparisons": True, "kind": "exploding_count"})
+            ctx.expect_known("KF-C14-count-ignores-explode", rep, "count_comparisons now agrees with predict() for an exploding rule")
         except Exception:
             ctx.log("witness replay raised", traceback.format_exc()[-800:])
 
